@@ -45,6 +45,9 @@ func TestRaceWorker(t *testing.T) {
 			if sc.Attempts[i].Stop == stopTimeout {
 				sc.Attempts[i].Stop = stopCancel
 			}
+			if i < len(sc.Attempts)-1 && mix64(s, uint64(i))%3 == 0 {
+				sc.Attempts[i].SkipErrorCalls = true
+			}
 			out.Stops[sc.Attempts[i].Stop.String()]++
 			out.Attempts++
 		}
